@@ -88,7 +88,8 @@ add("C11", "other",
     "runs), the suffix inference against the documented order (z3 strings), wds_read_signal's totality, and the .npy / .npz / raw / .pt helpers "
     "(one load of exactly the given source with the caller's keyword arguments, entry `key` or 'arr_0', one cast iff a dtype is given), the wave "
     "helper (all frames once as little-endian signed integers of the file's width, time x channels, IOError iff uneven, closed on every way out) "
-    "and the soundfile helper (one read in the stored subtype's NumPy type, then the cast), SPHERE header parsing (see C12). Container "
+    "and the soundfile helper (one read in the stored subtype's NumPy type, then the cast), the HDF5 helper (read-only open, the keyed entry or - "
+    "for roots holding only data sets - the one with the smallest name, IOError iff none, one numpy.array conversion), SPHERE header parsing (see C12). Container "
     "round trips (incl. long SPHERE headers) are bounded." + MIX, TB)
 add("C12", "other",
     "Proved: copy_samples' read loop against a ghost byte stream for every channel count, sample count and file length (cursor and decoded-prefix "
